@@ -102,6 +102,7 @@ package evm
 //@   assumes !isbal(ctx.Tx.Amount) && !isbal(ctx.Tx.GasPrice)
 //@   assumes ctx.Sender == acctof(ctx.AcctHandler, content(ctx.Tx.From), ctx.Exec ? 1 : 0) && balowner(ctx.Sender.Balance) == ctx.Sender && isbal(ctx.Sender.Balance) && len(ctx.Tx.From) == 20
 //@   requires wf_ctx(ctx)
+//@   assumes noalias(ctx)
 //@   requires ctx.Tx.Type == 6 || (ctx.Tx.Type == 1 && ctx.Receiver.Code != nil)
 //@   requires ctx.Sender.Nonce == ctx.Tx.Nonce
 //@   modifies everything
@@ -117,6 +118,7 @@ package evm
 //@   implements (ITrxHandler_TrxEVMHandler).ValidateTrx
 //@   objinv ctrler != nil && ctrler.ethChainConfig != nil
 //@   requires wf_ctx(ctx)
+//@   assumes noalias(ctx)
 //@   modifies lastigas
 //@   allocates big.Int
 //@   ensures result == nil ==> ctx.Tx.Gas >= lastigas                                                         [C16]
